@@ -36,6 +36,7 @@ class Unit:
         self.path = path        # display path
         self.body = fn['body'] if not is_closure else node['body']
         self.is_closure = is_closure
+        self.is_loop = node.get('k') == 'For'
         self.origins = []       # dicts(kind, status, what, node, detail, callee)
 
 
@@ -63,6 +64,24 @@ def collect_units(crate, derives):
                 if is_option_ty(bt) and uses_diagnostics(crate, n['body']):
                     p = n.get('def') or ('%s::{closure#%d}' % (fn['path'], i))
                     units[p] = Unit(fn, n, p, True)
+        # the loop form of `src.filter_map(|x| ..).collect()`: a `for` whose body pushes onto a list declared outside it and which can skip
+        # an item (`continue`, or an `if let Some(..)` around the push). Skipping an item is this unit's "None".
+        j = 0
+        for n in (walk(fn['body']) if fn['path'].startswith('uigen::') else ()):     # the builders of form and support code
+            if n.get('k') != 'For':
+                continue
+            inside = {b.get('hid') for b in walk(n['body']) if b.get('k') == 'Bind'} | {b.get('hid') for b in walk(n['pat']) if b.get('k') == 'Bind'}
+            pushes = [c for c in H.calls_in(n['body'], enter_closures=False) if c.get('k') == 'MCall' and c.get('m') == 'push' and
+                      (H.root_local(c['recv']) or {}).get('hid') not in inside and H.root_local(c['recv']) is not None and
+                      'diagnostic::Diagnostics' not in (crate.ty(c['recv'], adjusted=True) or crate.ty(c['recv']) or '')]
+            skips = [x for x in walk(n['body'], enter_closures=False) if x.get('k') == 'Continue'] + \
+                [x for x in walk(n['body'], enter_closures=False) if x.get('k') == 'If' and x['c'].get('k') == 'LetCond' and any(any(y is c for y in walk(x['then'])) for c in pushes)]
+            if pushes and skips and uses_diagnostics(crate, n['body']):
+                j += 1
+                p = '%s::{loop#%d}' % (fn['path'], j)
+                u = Unit(fn, n, p, True)
+                u.loop_pushes = pushes
+                units[p] = u
     return units
 
 
@@ -122,6 +141,9 @@ class Analysis:
         body = u.body
         pushes = pushes_in(crate, body)
         self._pushes = pushes
+        if getattr(u, 'is_loop', False):
+            self.find_loop_origins(u)
+            return
         # 1. `?` on Option operands inside this unit
         for n in walk(body, enter_closures=False):
             if n is not body and n.get('k') == 'Closure':
@@ -133,6 +155,59 @@ class Analysis:
         # 2. returned values
         for v in H.return_exprs(body):
             self.classify_value(u, v)
+
+    def find_loop_origins(self, u):
+        """Every way the loop body can end without pushing an item: `continue`, and `if let Some(x) = SRC { push }` without a pushing else."""
+        crate = self.crate
+        lp = u.node
+        pm = H.parents(u.fn)
+
+        def own(node):
+            # not inside a nested loop or closure
+            for a in H.ancestors(u.fn, node):
+                if a is lp:
+                    return True
+                if a.get('k') in ('For', 'Loop', 'Closure'):
+                    return False
+            return False
+        for c in walk(lp['body'], enter_closures=False):
+            if c.get('k') == 'Continue' and own(c):
+                p = self.dominating_push(u, c)
+                if p is not None and any(x is p for x in walk(lp['body'])):
+                    self.add(u, 'literal', 'pushed', 'continue', c, 'dominated by diagnostics.push at %s' % crate.loc(p))
+                    continue
+                # `if SRC.is_none() { continue }`  /  `let Some(x) = SRC else { continue }`  /  `None => continue`
+                src = None
+                for a in H.ancestors(u.fn, c):
+                    if a is lp:
+                        break
+                    if a.get('k') == 'If' and any(x is c for x in walk(a['then'])):
+                        t = H.strip_refs(a['c'])
+                        if t.get('k') == 'MCall' and t.get('m') == 'is_none' and is_option_ty(crate.ty(t['recv']) or ''):
+                            src = t['recv']
+                        break
+                    if a.get('k') == 'Let' and a.get('els') is not None and any(x is c for x in walk(a['els'])):
+                        pat = a['pat']
+                        if pat.get('k') == 'PTS' and (pat.get('def') or '').endswith('Option::Some') and a.get('init') is not None:
+                            src = a['init']
+                        break
+                    if a.get('k') == 'Arm' and any(x is c for x in walk(a['body'])):
+                        pat = a['pat']
+                        if pat.get('k') == 'PPath' and (pat.get('def') or '').endswith('Option::None'):
+                            m = pm.get(id(a))
+                            if m is not None and m.get('k') == 'Match':
+                                src = m['e']
+                        break
+                if src is not None:
+                    self.classify_source(u, src, 'propagate', c)
+                else:
+                    self.add(u, 'literal', 'open', 'continue', c, '`continue` skips the item with no diagnostics.push on its path')
+            if c.get('k') == 'If' and c['c'].get('k') == 'LetCond' and own(c) and any(any(y is pc for y in walk(c['then'])) for pc in getattr(u, 'loop_pushes', [])):
+                pat = c['c']['pat']
+                if pat.get('k') == 'PTS' and (pat.get('def') or '').endswith('Option::Some'):
+                    els_pushes = 'els' in c and (any(any(y is pc for y in walk(c['els'])) for pc in u.loop_pushes) or any(any(y is pp_ for y in walk(c['els'])) for pp_ in self._pushes))
+                    if not els_pushes:
+                        self.classify_source(u, c['c']['e'], 'propagate', c)
 
     def dominating_push(self, u, node):
         for p in self._pushes:
